@@ -33,11 +33,18 @@ namespace drv {
       if (k >= n) return 2u;
       return static_cast<const void*>(&e) != static_cast<const void*>(elems[k]);
    }
-   unsigned p_ref_sequence(const Expr& a, const Expr& b, std::size_t k) { auto* s = new impl::ref_sequence<Expr>{ }; s->push_back(&a); s->push_back(&b); const Expr* el[2] = { &a, &b }; return at_index(static_cast<const Sequence<Expr>&>(*s), 2, el, k); }
-   unsigned p_obj_list(impl::Lexicon& lx, const Region& r, const Name& n, const Type& t, const Name& m, const Type& u, std::size_t k)
-   { auto* b = lx.make_block(r); const Handler* el[2]; el[0] = b->new_handler(n, t); el[1] = b->new_handler(m, u); return at_index(static_cast<const ipr::Block&>(*b).handlers(), 2, el, k); }
-   unsigned p_obj_sequence(impl::Lexicon& lx, const Region& r, Enum::Kind kd, const Name& n, const Name& m, std::size_t k)
-   { auto* e = lx.make_enum(r, kd); const Enumerator* el[2]; el[0] = e->add_member(n); el[1] = e->add_member(m); return at_index(static_cast<const ipr::Enum&>(*e).members(), 2, el, k); }
+   // two reads in any order (an earlier position after a later one, the same one twice, ...): each is the element at that index
+   template<class S, class T> inline unsigned at_two(const S& s, std::size_t n, const T* const elems[], std::size_t k, std::size_t j)
+   {
+      if (k >= n || j >= n) return at_index(s, n, elems, k >= n ? k : j);
+      const auto& a = *s.position(k); const auto& b = *s.position(j); const auto& c = *s.position(k);
+      return (static_cast<const void*>(&a) != static_cast<const void*>(elems[k]) ? 1u : 0u) | (static_cast<const void*>(&b) != static_cast<const void*>(elems[j]) ? 8u : 0u) | (static_cast<const void*>(&c) != static_cast<const void*>(elems[k]) ? 8u : 0u);
+   }
+   unsigned p_ref_sequence(const Expr& a, const Expr& b, std::size_t k, std::size_t j) { auto* s = new impl::ref_sequence<Expr>{ }; s->push_back(&a); s->push_back(&b); const Expr* el[2] = { &a, &b }; return at_two(static_cast<const Sequence<Expr>&>(*s), 2, el, k, j); }
+   unsigned p_obj_list(impl::Lexicon& lx, const Region& r, const Name& n, const Type& t, const Name& m, const Type& u, std::size_t k, std::size_t j)
+   { auto* b = lx.make_block(r); const Handler* el[3]; el[0] = b->new_handler(n, t); el[1] = b->new_handler(m, u); el[2] = b->new_handler(n, u); return at_two(static_cast<const ipr::Block&>(*b).handlers(), 3, el, k, j); }
+   unsigned p_obj_sequence(impl::Lexicon& lx, const Region& r, Enum::Kind kd, const Name& n, const Name& m, std::size_t k, std::size_t j)
+   { auto* e = lx.make_enum(r, kd); const Enumerator* el[2]; el[0] = e->add_member(n); el[1] = e->add_member(m); return at_two(static_cast<const ipr::Enum&>(*e).members(), 2, el, k, j); }
    unsigned p_empty_sequence(impl::Lexicon& lx, const Region& r, const Name& n, const Type& t, std::size_t k)
    { auto* b = lx.make_block(r); auto* h = b->new_handler(n, t); const Handler* el[1] = { nullptr }; return at_index(static_cast<const ipr::Block&>(h->body()).handlers(), 0, el, k); }
    unsigned p_singleton_ref(const Expr& a, std::size_t k) { auto* s = new impl::singleton_ref<Expr>{ a }; const Expr* el[1] = { &a }; return at_index(static_cast<const Sequence<Expr>&>(*s), 1, el, k); }
